@@ -27,3 +27,33 @@ Theorem C02_complete :
              0%nat, eof)] (yield t) [] = Acc (post t).
 Proof. exact C02Assembly.C02_model. Qed.
 Print Assumptions C02_complete.
+
+From YG Require Import LRBase CompleteDriver LASuperset TableCert Pipeline PipelineLA.
+Close Scope Z_scope.
+Open Scope nat_scope.
+
+(* C02 for the tables the pipeline emits: whenever generate_tables succeeds and no cell of the table has two candidate actions (shift and reduce, or two reduces, on one lookahead - i.e. the grammar is LALR(1), see C03_pipeline), the LR machine driven by the emitted dense matrix accepts the yield of every valid parse tree over the grammar's symbols and performs exactly its post-order as reductions *)
+Theorem C02_pipeline :
+  forall gi : ginfo,
+         (forall r d : nat, nth_error (rhs_of (gi_rules gi) r) d <> Some 0) ->
+         lhs_of (gi_rules gi) 0 = 0 ->
+         (forall r d : nat, nth_error (rhs_of (gi_rules gi) r) d <> Some eof) ->
+         rhs_of (gi_rules gi) 0 = [start_user (gi_rules gi)] ->
+         ~ is_nt (gi_rules gi) eof ->
+         (forall (seq : list nat) (l : nat),
+          ~ is_nt (gi_rules gi) l -> exists b : nat, first_seq (gi_rules gi) (seq ++ [l]) b) ->
+         eof < gi_nsyms gi ->
+         (forall (r : nat) (R : rule), nth_error (gi_rules gi) r = Some R -> lhs R < gi_nsyms gi) ->
+         forall t : tables,
+         generate_tables gi = inr t ->
+         (forall q a : nat,
+          length (candidates (gi_rules gi) (t_aut t) (la_lookup (t_la t)) (sprec_of gi) (rprec_of gi) q a) <= 1) ->
+         forall tr : tree,
+         tvalid (gi_rules gi) tr ->
+         Some (root (gi_rules gi) tr) = hd_error (rhs_of (gi_rules gi) 0) ->
+         (forall a : nat, In a (yield tr) -> a < gi_nsyms gi) ->
+         exists fuel : nat,
+           run fuel (dense_action (length (t_aut t)) (t_dense t)) (gi_rules gi) [(0, eof)] (yield tr) [] =
+           Acc (post tr).
+Proof. exact PipelineLA.pipeline_complete. Qed.
+Print Assumptions C02_pipeline.
